@@ -17,6 +17,11 @@ LIST_ALPHA = [0, 1, "a"]
 
 FORMS = {
     "idx": "s[i]",
+    # "the first / last n elements": n >= 0 (first_n), n >= 1 (last_n);
+    # other counts are not documented
+    "first_n": "List->first_n(s, i)",
+    "last_n": "List->last_n(s, i)",
+    "rest": "List->rest(s)",
     "idx_set": "do s[i] = v; s end",
     "slice": "s[a to b]",
     "slice_end": "s[a to *]",
@@ -97,6 +102,11 @@ def cases_for(s, K, big=False):
         yield ("substr1" if isstr else "sublist1"), {"s": s, "a": i}, \
             [val(ref_slice(s, i, n))]
         yield "split_join", {"s": s, "a": i}, [val(s)]
+        if not isstr and i >= 0:
+            yield "first_n", {"s": s, "i": i}, [val(s[:i])]
+            if i >= 1:
+                yield "last_n", {"s": s, "i": i}, \
+                    [val(s[-i:] if i < n else list(s))]
         if not isstr:
             # insert_at: -(n+1) <= i <= n inserts exactly one element
             if -(n + 1) <= i <= n:
@@ -121,6 +131,8 @@ def cases_for(s, K, big=False):
                     yield "substr_slice", {"s": s, "a": i, "b": b}, \
                         [val([exp, exp])]
     yield "length", {"s": s}, [val(n)]
+    if not isstr:
+        yield "rest", {"s": s}, [val(s[1:])]
     if big:
         return
     if isstr:
